@@ -211,6 +211,11 @@ def Payload.bytes : Payload → Bytes
   | .plain a => a
   | .secure scf d => secureApduToKnx scf d
 
+/-- `isinstance(payload, SecureAPDU)` (`is_data_secure`). -/
+def Payload.isSecure : Payload → Bool
+  | .secure _ _ => true
+  | _ => false
+
 /-- `DataSecure` object state. -/
 structure DS where
   keys : List (Nat × Bytes)     -- `_group_key_table` (group address raw ↦ key)
@@ -354,7 +359,7 @@ def isTDataGroup (f : Frame) : Bool := f.group && f.dst != 0 && f.tpci == 0
 
 /-- `handle_cemi_frame` for an L_DATA_IND carrying `f`; `ds = none` ⇔ no keyring. -/
 def handle (E : BlockFn) (ds : Option DS) (f : Frame) (innerOk : Bytes → Bool) : Option DS × Route :=
-  let isSec := match f.payload with | .secure _ _ => true | _ => false
+  let isSec := f.payload.isSecure
   match ds with
   | none =>
     if isSec then (none, .keyIssue (isTDataGroup f))
